@@ -65,6 +65,11 @@ class MixGen(bg.Gen):
         for a in list(self.actors):
             self.emit("L %d %d 4 %d" % (a, self.lg_of(a), 10))
 
+    def emit(self, line):
+        if line.split()[:1] and line.split()[0] in ("DT", "NA", "LU"):
+            return          # read-pass faults of the fault layer: not part of the mixed machine
+        return super().emit(line)
+
     def new_actor(self, kind=None):
         a = super().new_actor()
         self.fe[a] = kind or self.r.choice("ub")
@@ -85,8 +90,8 @@ class MixGen(bg.Gen):
         if not o:
             return o
         w = o.split()
-        if w[0] in ("RL", "RB", "CL", "DS", "SH", "QC"):
-            return None
+        if w[0] in ("RL", "RB", "CL", "DS", "SH", "QC", "LU", "DT", "NA"):
+            return None     # (LU/DT/NA: read-pass faults of the fault layer, not part of the mixed machine)
         if w[0] in ("L", "LS", "LN", "LB", "IB", "FB", "F"):
             a = int(w[1])
             w[2] = str(self.lg_of(a))
